@@ -16,6 +16,15 @@ Streams (model `Lint.lintScript` vs `model.lint_script`, exact list equality of 
   lint-names-random  programs of the other generators with their names consistently replaced by hostile spellings
   lint-shipped     every shipped include/*.bare
   lint-nested      jump-level models with function statements nested in function bodies (known finding F19)
+  lint-optional-members  every presence combination of the schema's optional members (flag without args, flags present and false,
+                   calls without / with empty args, return / jump without expression, include system false), hand-built and parsed
+  lint-noop-lookalikes   statements that look removable and are not: self-assignments by binding state of the name, calls of
+                   side-effect-free library functions whose name the script re-binds, dead stores, jumps to the next statement
+  lint-shared-nodes      (host-only) programs with twin functions linted as object graphs with shared nodes (one expression / statement /
+                   list object referenced from several scopes) and in other host representations of the same value
+  lint-history     (host-only) episodes on long-lived model objects: re-lint, lint after in-place modification, after failing calls,
+                   after the caller modified the returned list; every value again in fresh interpreters with other hash seeds
+  (every stream lints its cases also in one of the host representations REPRS, in turn)
 
 Oracles run on the real implementation for every case (independent of the Lean model):
   lint-raises / lint-impure          lint never raises on a schema-valid model, does not modify it, twice = same list
@@ -27,6 +36,12 @@ Oracles run on the real implementation for every case (independent of the Lean m
                                      error, log and final globals must agree
   runtime:unknown-jump               taking a jump to a reported unknown label raises 'Unknown jump label', and a run that
                                      raises it names a label that lint reported
+  lint-representation                the same model value as another object graph (shared nodes, dict / list / str / float subclasses,
+                                     read-only containers, other member order, OrderedDict) gets the same warnings; lint-raises /
+                                     lint-impure / exact:* / semantic:* are applied to what lint says about that representation
+                                     (witness input carries 'repr'; realise() rebuilds it deterministically)
+  lint-history                       a lint of a long-lived object equals the lint of a fresh copy of its current value
+  lint-fresh-process                 ... and the lint of the same value in a fresh interpreter process (PYTHONHASHSEED 0 / 4242)
 """
 
 import copy
@@ -413,8 +428,8 @@ def apply_edit(model, w):
         st = stmts[ix]
         if kind == 'unused-label' and st.get('label') != w['name']:
             return None
-        if kind == 'pointless' and not ('expr' in st and 'name' not in st['expr']):
-            return None
+        # 'pointless': whatever statement stands at the reported index is deleted (the property speaks of "a reported pointless
+        # statement", not of its syntactic form: an assignment, jump or return that is reported must be deletable too)
         del stmts[ix]
         return m, True
     return None
@@ -477,24 +492,9 @@ def unknown_jump_check(model, w, report):
 # all implementation-side oracles for one model
 # ---------------------------------------------------------------------------------------------------------------------
 
-def check_model(model, report, stats, semantic_cap=8):
-    """Runs every oracle on the real implementation. -> the warning list (or {'error': ...})."""
-    impl_model = fw.impl()['model']
-    snapshot = fast_copy(model)
-    snap_text = json.dumps(model)
-    try:
-        warnings = impl_model.lint_script(model)
-        again = impl_model.lint_script(model)
-    except Exception as exc:  # pylint: disable=broad-except
-        report('lint-raises', {'model': snapshot}, 'a list of warnings', f'{type(exc).__name__}: {exc}')
-        return {'error': type(exc).__name__}
-    if model != snapshot or json.dumps(model) != snap_text:
-        report('lint-impure', {'model': snapshot}, 'model unchanged', jsonable(model))
-        model = snapshot
-    if warnings != again or not isinstance(warnings, list) or not all(isinstance(w, str) for w in warnings):
-        report('lint-impure', {'model': snapshot}, warnings, again)
-        return warnings
-
+def judge_warnings(model, warnings, report, stats, semantic_cap, only=None):
+    """Exactness + semantic oracles for one warning list that lint produced for (an object equal to) the tree `model`.
+    `only`: restrict the semantic oracles to these warning texts (used for the extra warnings of a representation)."""
     parsed = parse_warnings(model, warnings)
     nested = has_nested_function(model)
     # exactness of the label / redefinition warnings
@@ -512,7 +512,9 @@ def check_model(model, report, stats, semantic_cap=8):
 
     # semantic justification on the real interpreter
     done = {}
-    for w in parsed:
+    for text, w in zip(warnings, parsed):
+        if only is not None and text not in only:
+            continue
         k = w['kind']
         if k in ('unused-var', 'unused-arg', 'unused-label', 'pointless'):
             if done.get(k, 0) < semantic_cap:
@@ -522,6 +524,31 @@ def check_model(model, report, stats, semantic_cap=8):
             if done.get(k, 0) < semantic_cap:
                 done[k] = done.get(k, 0) + 1
                 unknown_jump_check(model, w, report)
+    return parsed, nested
+
+
+def check_model(model, report, stats, semantic_cap=8, reprs=()):
+    """Runs every oracle on the real implementation. -> the warning list (or {'error': ...}).
+
+    `model` is linted as the object it is; `reprs` names further host representations of the SAME model value (REPRS: shared
+    nodes, dict / list / str subclasses, read-only containers, other key orders) that are built from it and linted too."""
+    impl_model = fw.impl()['model']
+    snapshot = fast_copy(model)
+    snap_text = json.dumps(model)
+    try:
+        warnings = impl_model.lint_script(model)
+        again = impl_model.lint_script(model)
+    except Exception as exc:  # pylint: disable=broad-except
+        report('lint-raises', {'model': snapshot}, 'a list of warnings', f'{type(exc).__name__}: {exc}')
+        return {'error': type(exc).__name__}
+    if model != snapshot or json.dumps(model) != snap_text:
+        report('lint-impure', {'model': snapshot}, 'model unchanged', jsonable(model))
+        model = snapshot
+    if warnings != again or not isinstance(warnings, list) or not all(isinstance(w, str) for w in warnings):
+        report('lint-impure', {'model': snapshot}, warnings, again)
+        return warnings
+
+    parsed, nested = judge_warnings(model, warnings, report, stats, semantic_cap)
     # a run that raises 'Unknown jump label' names a reported label
     base = run_model(model, BUDGET)
     stats['runs'] = stats.get('runs', 0) + 1
@@ -531,7 +558,160 @@ def check_model(model, report, stats, semantic_cap=8):
         if base['unknown_jump'] not in warned:
             report('runtime:unknown-jump', {'model': model}, f'a warning for label {base["unknown_jump"]!r}', sorted(warned),
                    nested=nested)
+    for kind in reprs:
+        check_representation(snapshot, warnings, kind, report, stats, max(semantic_cap, 8))
     return warnings
+
+
+# ---------------------------------------------------------------------------------------------------------------------
+# host representations of one model value
+#
+# Every generator builds a fresh JSON-like tree (and the oracles work on json round-trips of it), so lint only ever saw plain
+# dict / list / str / float objects, each referenced exactly once.  A host builds models programmatically: one expression
+# object is re-used wherever the same expression is needed (the parser does it for the test of a while-do loop), two functions
+# share a statement list, containers are dict / list subclasses or read-only views, names are str subclasses, dict members
+# arrive in another order.  All of these are THE SAME schema-valid model; the warnings must be the same and justified.
+# `realise(tree, kind)` is deterministic, so a witness {'model': tree, 'repr': kind} replays.
+# ---------------------------------------------------------------------------------------------------------------------
+
+class ModelMutated(Exception):
+    """lint tried to modify a read-only model"""
+
+
+class DictSub(dict):
+    pass
+
+
+class ListSub(list):
+    pass
+
+
+class StrSub(str):
+    pass
+
+
+class FloatSub(float):
+    pass
+
+
+def _refuse(self, *args, **kwargs):
+    raise ModelMutated('lint_script modified the model (%s)' % type(self).__name__)
+
+
+class FrozenDict(dict):
+    __setitem__ = __delitem__ = pop = popitem = clear = update = setdefault = __ior__ = _refuse
+
+
+class FrozenList(list):
+    __setitem__ = __delitem__ = append = extend = insert = pop = remove = clear = sort = reverse = __iadd__ = __imul__ = _refuse
+
+
+REPRS = ['share-expr', 'share-all', 'subclass', 'frozen', 'reversed-keys', 'sorted-keys', 'ordered']
+
+
+def is_compound_expr(d):
+    if not isinstance(d, dict) or len(d) != 1:
+        return False
+    (k, v), = d.items()
+    return k in ('binary', 'unary', 'group') or (k == 'function' and isinstance(v, dict) and 'statements' not in v)
+
+
+def realise(tree, kind):
+    """A fresh object graph with the value of `tree` in the host representation `kind`."""
+    import collections
+    if kind in ('share-expr', 'share-all'):
+        # hash-consing: structurally equal nodes become ONE object, wherever they occur (share-expr: the compound expression
+        # nodes only; share-all: every dict and list - leaf expressions, statements, statement / argument lists, function bodies)
+        memo = {}       # structure key -> (structure number, the one object)
+        everything = kind == 'share-all'
+
+        def build(x):
+            # -> (object, structure number): equal numbers <=> structurally equal values
+            if isinstance(x, dict):
+                parts = [(k, build(v)) for k, v in x.items()]
+                key = ('d',) + tuple(sorted((k, num) for k, (_, num) in parts))
+                share = everything or is_compound_expr(x)
+            elif isinstance(x, list):
+                parts = [build(v) for v in x]
+                key = ('l',) + tuple(num for _, num in parts)
+                share = everything
+            else:
+                key = (type(x).__name__, x)
+                hit = memo.get(key)
+                if hit is None:
+                    hit = memo[key] = (len(memo), x)
+                return x, hit[0]
+            hit = memo.get(key)
+            if hit is not None and share:
+                return hit[1], hit[0]
+            obj = {k: o for k, (o, _) in parts} if isinstance(x, dict) else [o for o, _ in parts]
+            if hit is None:
+                hit = memo[key] = (len(memo), obj)
+            return obj, hit[0]
+        return build(tree)[0]
+
+    def conv(x):
+        if isinstance(x, dict):
+            items = [(k, conv(v)) for k, v in x.items()]
+            if kind == 'reversed-keys':
+                return dict(reversed(items))
+            if kind == 'sorted-keys':
+                return dict(sorted(items, key=lambda p: p[0]))
+            if kind == 'ordered':
+                return collections.OrderedDict(items)
+            return (DictSub if kind == 'subclass' else FrozenDict)(items)
+        if isinstance(x, list):
+            vals = [conv(v) for v in x]
+            return vals if kind in ('reversed-keys', 'sorted-keys', 'ordered') else (ListSub if kind == 'subclass' else FrozenList)(vals)
+        if kind == 'subclass' and isinstance(x, str):
+            return StrSub(x)
+        if kind == 'subclass' and isinstance(x, float):
+            return FloatSub(x)
+        return x
+    return conv(tree)
+
+
+def representation_valid(obj):
+    """Does the implementation's own validator accept this very object as a script model?"""
+    try:
+        fw.impl()['model'].validate_script(obj)
+        return True
+    except Exception:  # pylint: disable=broad-except
+        return False
+
+
+def check_representation(tree, tree_warnings, kind, report, stats, semantic_cap=8):
+    """Lint the model in another host representation: no exception, not modified, the warnings of the plain tree; warnings that
+    only this representation gets are also put to the semantic oracles (rename / delete and run)."""
+    impl_model = fw.impl()['model']
+    obj = realise(tree, kind)
+    stats['repr:' + kind] = stats.get('repr:' + kind, 0) + 1
+
+    def rreport(oracle, input_, expected, actual, **extra):
+        if not representation_valid(realise(tree, kind)):
+            stats['repr-not-schema-valid:' + kind] = stats.get('repr-not-schema-valid:' + kind, 0) + 1
+            return
+        report(oracle, dict(input_, repr=kind), expected, actual, **extra)
+    try:
+        got = impl_model.lint_script(obj)
+        again = impl_model.lint_script(obj)
+    except ModelMutated as exc:
+        rreport('lint-impure', {'model': tree}, 'model unchanged', str(exc))
+        return
+    except Exception as exc:  # pylint: disable=broad-except
+        rreport('lint-raises', {'model': tree}, 'a list of warnings', f'{type(exc).__name__}: {exc}')
+        return
+    if obj != tree:
+        rreport('lint-impure', {'model': tree}, 'model unchanged', jsonable(obj))
+        return
+    if got != again:
+        rreport('lint-impure', {'model': tree}, got, again)
+        return
+    if got != tree_warnings:
+        rreport('lint-representation', {'model': tree}, tree_warnings, got)
+        extra = [w for w in got if w not in tree_warnings] if isinstance(got, list) else []
+        if extra and all(isinstance(w, str) for w in got):
+            judge_warnings(tree, got, rreport, stats, semantic_cap, only=set(extra))
 
 
 # ---------------------------------------------------------------------------------------------------------------------
@@ -1312,6 +1492,388 @@ def hostile_random_cases(rng, n):
 
 
 # ---------------------------------------------------------------------------------------------------------------------
+# optional members of the schema: every presence combination
+#
+# The generators above only produce the combinations the parser commonly emits: a `lastArgArray` flag only next to a
+# non-empty `args`, flags only with the value true, ...  The schema makes every optional member independent of the others,
+# so {lastArgArray without args, flags present with the value false, a call without / with an empty `args`, a return / jump
+# without expression, an include with system false} are all schema-valid models (several of them parser output: the line
+# `function f(...):` has a rest marker and no names).
+# ---------------------------------------------------------------------------------------------------------------------
+
+def schema_optional_members():
+    """['Struct.member', ...] of all optional members of the script model's schema (read from the implementation)."""
+    out = []
+    for tname, tdef in fw.impl()['model'].BARE_SCRIPT_TYPES.items():
+        for d in tdef.values():
+            for m in (d.get('members') or []) if isinstance(d, dict) else []:
+                if m.get('optional'):
+                    out.append(f'{tname}.{m["name"]}')
+    return sorted(out)
+
+
+OPT_COVERED = ['ExpressionStatement.name', 'FunctionExpression.args', 'FunctionStatement.args', 'FunctionStatement.async',
+               'FunctionStatement.lastArgArray', 'IncludeScript.system', 'JumpStatement.expr', 'ReturnStatement.expr']
+
+
+def _call(name, *args):
+    return {'function': {'name': name, 'args': list(args)}}
+
+
+def _log(e):
+    return {'expr': {'expr': _call('systemLog', _call('jsonStringify', e))}}
+
+
+def optional_member_cases():
+    """(id, model): the product of the optional members of each struct, hand-built and (where the parser can produce the
+    combination) as source text."""
+    out = []
+    # FunctionStatement: args x lastArgArray x async x what the body reads
+    for args in (None, ['p'], ['p', 'q'], ['p', 'q', 'p'], ['q', 'p', 'r']):
+        for last in (None, False, True):
+            for asyn in (None, False, True):
+                for body in ('empty', 'none', 'first', 'last', 'all'):
+                    names = args or ['p']
+                    read = {'empty': [], 'none': [], 'first': names[:1], 'last': names[-1:], 'all': names}[body]
+                    stmts = [_log({'variable': v}) for v in read]
+                    if body != 'empty':
+                        stmts.append({'return': {'expr': _call('arrayNew', *[{'variable': v} for v in read])}})
+                    fn = {'name': 'f', 'statements': stmts}
+                    if args is not None:
+                        fn['args'] = list(args)
+                    if last is not None:
+                        fn['lastArgArray'] = last
+                    if asyn is not None:
+                        fn['async'] = asyn
+                    calls = [] if asyn else [_log(_call('f', {'number': 1.0}, {'number': 2.0}, {'number': 3.0}, {'number': 4.0})),
+                                             _log({'function': {'name': 'f'}}), _log(_call('f', {'variable': 'garr'}))]
+                    out.append((f'opt:fn:args={args}:last={last}:async={asyn}:body={body}', {'statements': [{'function': fn}] + calls}))
+    # the headers the parser accepts (names, blanks and the rest marker are independently optional)
+    parser = fw.impl()['parser']
+    for head in ('f()', 'f( )', 'f(...)', 'f( ... )', 'f(p...)', 'f(p ...)', 'f(p, q...)', 'f(p,q ... )', 'f(p)', 'f(p, q)', 'f(p, p...)'):
+        for pre in ('', 'async '):
+            for body in (['return 7'], ["systemLog('p ' + jsonStringify(p))", 'return p'], []):
+                text = '\n'.join([f'{pre}function {head}:'] + ['    ' + ln for ln in body] + ['endfunction'] +
+                                 ([] if pre else ['systemLog(jsonStringify(f(1, 2, 3)))', 'systemLog(jsonStringify(f()))'])) + '\n'
+                try:
+                    out.append((f'opt:text:{pre}{head}:{len(body)}', parser.parse_script(text)))
+                except parser.BareScriptParserError:
+                    pass
+    # the other structs: one statement variant in a fixed context, at top level and inside a function
+    exprs = [{'number': 1.0}, {'string': 's'}, {'variable': 'v'}, {'function': {'name': 'note'}}, {'function': {'name': 'note', 'args': []}},
+             _call('note', {'variable': 'v'}), {'group': {'function': {'name': 'note'}}}, {'unary': {'op': '-', 'expr': {'variable': 'v'}}},
+             {'binary': {'op': '+', 'left': {'variable': 'v'}, 'right': {'function': {'name': 'note'}}}}]
+    variants = []
+    for ix, e in enumerate(exprs):
+        variants.append((f'expr{ix}', {'expr': {'expr': e}}))
+        variants.append((f'assign{ix}', {'expr': {'name': 'w', 'expr': e}}))
+        variants.append((f'return{ix}', {'return': {'expr': e}}))
+        variants.append((f'jumpif{ix}', {'jump': {'label': 'L', 'expr': e}}))
+    variants += [('return', {'return': {}}), ('jump', {'jump': {'label': 'L'}}), ('jump-unknown', {'jump': {'label': 'M'}}),
+                 ('jumpif-unknown', {'jump': {'label': 'M', 'expr': {'variable': 'gc'}}})]
+    for inc in ([{'url': 'x.bare'}], [{'url': 'x.bare', 'system': False}], [{'url': 'x.bare', 'system': True}],
+                [{'url': 'x.bare', 'system': False}, {'url': 'y.bare'}, {'url': 'x.bare', 'system': True}]):
+        variants.append((f'include{len(variants)}', {'include': {'includes': inc}}))
+    note = {'function': {'name': 'note', 'args': ['nv'], 'statements': [
+        {'expr': {'expr': _call('systemLog', {'binary': {'op': '+', 'left': {'string': 'note '}, 'right': _call('jsonStringify', {'variable': 'nv'})}})}},
+        {'return': {'expr': {'variable': 'nv'}}}]}}
+    for vid, st in variants:
+        ctxt = [{'expr': {'name': 'v', 'expr': {'number': 5.0}}}, st, _log({'string': 'fall'}), {'label': 'L'}, _log({'variable': 'v'})]
+        for where in ('top', 'fn', 'fn-last'):
+            if where == 'top':
+                model = {'statements': [note] + fast_copy(ctxt)}
+            else:
+                body = fast_copy(ctxt if where == 'fn' else [{'label': 'L'}] + ctxt[:2])
+                model = {'statements': [note, {'function': {'name': 'g', 'statements': body}}, _log({'function': {'name': 'g'}})]}
+            out.append((f'opt:{vid}:{where}', model))
+    out.append(('opt:no-statements', {'statements': []}))
+    out.append(('opt:fn-no-statements', {'statements': [{'function': {'name': 'f', 'statements': []}}]}))
+    return out
+
+
+# ---------------------------------------------------------------------------------------------------------------------
+# statements that look removable / names that look unused, but are not
+#
+# 'Pointless statement' / 'Unused ...' verdicts are syntactic.  This family holds the statements on which a syntactic verdict
+# is tempting and wrong: an assignment of a variable to itself (it BINDS the name: in a function it snapshots a global into a
+# local, at top level it creates the global), a dead store, a call of a side-effect-free library function whose name is
+# re-bound by the script (function definition, local, global), a jump to the next statement, a trailing return.  Whatever lint
+# reports here goes through the rename / delete-and-run oracle; the binding state of the name is the generated dimension.
+# ---------------------------------------------------------------------------------------------------------------------
+
+NOOP_HEAD = ['function note(nv):', "    systemLog('note ' + jsonStringify(nv))", '    return nv', 'endfunction',
+             'function bump(name):', '    systemGlobalSet(name, systemGlobalGet(name, 0) + 1)', 'endfunction']
+SELF_FORMS = ['{v} = {v}', '{v} = ({v})', '{v} = (({v}))', '{v} = {v} + 0', '{v} = if(true, {v}, {v})', '{v} = {v} || {v}', '{v} = -(-{v})',
+              '{v} = note({v})', '{v} = 1 * {v}']
+PURE_LIB = ['mathAbs', 'arrayLength', 'stringLength', 'mathFloor', 'arrayCopy', 'objectNew']
+
+
+def noop_lookalike_cases():
+    """(id, source)"""
+    out = []
+    for fi, form in enumerate(SELF_FORMS):
+        for v in ('ga', 'x', 'zz'):       # a number global of the run / another one / a name bound nowhere
+            stmt = form.format(v=v)
+            tail = [f"bump('{v}')", f'note({v})', f"note(systemGlobalGet('{v}'))"]
+            # in a function: the name is only a global / already a local / an argument / bound on another path
+            for state, pre, params, actual in (('global-only', [], '', ''), ('local', [f'{v} = 40'], '', ''), ('arg', [], v, '41'),
+                                               ('conditional', ['if gc:', f'    {v} = 42', 'endif'], '', '')):
+                body = pre + [stmt] + tail + [f'return {v}']
+                out.append((f'noop:self{fi}:{v}:fn:{state}',
+                            NOOP_HEAD + [f'function work({params}):'] + ['    ' + ln for ln in body] + ['endfunction', f'note(work({actual}))']))
+            # at top level: never assigned / a global of the run / assigned before / assigned later
+            for state, pre, post in (('first', [], []), ('assigned', [f'{v} = 50'], []), ('later', [], [f'{v} = 51', f'note({v})'])):
+                out.append((f'noop:self{fi}:{v}:top:{state}', NOOP_HEAD + pre + [stmt] + tail + post))
+    for name in PURE_LIB:
+        arg = {'arrayLength': 'garr', 'arrayCopy': 'garr', 'stringLength': "'abc'", 'objectNew': "'k', 1"}.get(name, '-3')
+        call = f'{name}({arg})'
+        redefine = [f'function {name}(av, bv):', f"    systemLog('user {name} ' + jsonStringify(av))", "    bump('ga')", '    return 1', 'endfunction']
+        for where in ('top', 'fn'):
+            for bound in ('library', 'script-function', 'global-var', 'local-var', 'arg'):
+                for stmt in (call, f'1 + {call}', f'({call})', f'unusedV = {call}', f'!{call}'):
+                    if bound == 'local-var' and where == 'top':
+                        continue
+                    if bound == 'arg' and where == 'top':
+                        continue
+                    pre = redefine if bound == 'script-function' else [f'{name} = note'] if bound == 'global-var' else []
+                    if where == 'top':
+                        lines = NOOP_HEAD + pre + [stmt, 'note(ga)']
+                    else:
+                        params, actual = (name, 'note') if bound == 'arg' else ('', '')
+                        body = ([f'{name} = note'] if bound == 'local-var' else []) + [stmt, 'note(ga)', 'return 2']
+                        lines = NOOP_HEAD + pre + [f'function work({params}):'] + ['    ' + ln for ln in body] + ['endfunction', f'note(work({actual}))']
+                    out.append((f'noop:pure:{name}:{where}:{bound}:{stmt}', lines))
+    others = [
+        ('dead-store', ['v = note(1)', 'v = 2', 'return v']),
+        ('dead-store-read-between', ['v = 1', 'v = v + 1', 'v = 5', 'return v']),
+        ('store-read-by-callee-global', ["systemGlobalSet('gk', 1)", 'gk = 2', "return systemGlobalGet('gk')"]),
+        ('jump-next', ['jump nxt', 'nxt:', 'return 1']),
+        ('jumpif-next', ['jumpif (note(1)) nxt', 'nxt:', 'return 1']),
+        ('trailing-return', ['note(1)', 'return']),
+        ('return-null', ['note(1)', 'return null']),
+        ('early-return-hides', ['return note(1)', 'note(2)', 'v = 3']),
+        ('label-only', ['only:']),
+        ('variable-statement', ['v = 1', 'v', 'ga', 'return v']),
+        ('assign-from-unbound', ['v = zz', 'return note(v)']),
+        ('shadow-global', ['ga = ga', "bump('ga')", 'return ga']),
+        ('shadow-then-unused', ['ga = 9', 'return note(1)']),
+        ('arg-self', ['return 1']),
+    ]
+    for oid, body in others:
+        out.append((f'noop:{oid}:fn', NOOP_HEAD + ['function work(ua, ub):'] + ['    ' + ln for ln in body] + ['endfunction', 'note(work(1))', 'note(ga)']))
+        if not any(ln.startswith('return') and ln != 'return' for ln in body[:-1]):
+            out.append((f'noop:{oid}:top', NOOP_HEAD + body + ['note(ga)']))
+    return [(cid, '\n'.join(lines) + '\n') for cid, lines in out]
+
+
+# ---------------------------------------------------------------------------------------------------------------------
+# one scope's expressions occurring in another scope as well (-> shared objects under realise(.., 'share-*'))
+# ---------------------------------------------------------------------------------------------------------------------
+
+def calls_name(e, name):
+    (k, v), = e.items()
+    if k == 'function':
+        return v['name'] == name or any(calls_name(a, name) for a in v.get('args', []))
+    if k == 'group':
+        return calls_name(v, name)
+    if k == 'unary':
+        return calls_name(v['expr'], name)
+    if k == 'binary':
+        return calls_name(v['left'], name) or calls_name(v['right'], name)
+    return k == 'variable' and v == name
+
+
+def cross_scope_shared(model):
+    """number of distinct compound expressions that occur in at least two scopes (top level, each top-level function)"""
+    count = {}
+
+    def walk(x, acc):
+        if isinstance(x, dict):
+            if is_compound_expr(x):
+                acc.add(json.dumps(x, sort_keys=True))
+            for k, v in x.items():
+                if k != 'function' or 'statements' not in v:
+                    walk(v, acc)
+        elif isinstance(x, list):
+            for v in x:
+                walk(v, acc)
+    scopes = [[s for s in model['statements'] if 'function' not in s]] + [s['function']['statements'] for s in model['statements'] if 'function' in s]
+    for stmts in scopes:
+        acc = set()
+        walk(stmts, acc)
+        for key in acc:
+            count[key] = count.get(key, 0) + 1
+    return sum(1 for v in count.values() if v > 1)
+
+
+def with_twins(model, rng):
+    """The same program with, for (most) top-level functions, an equal twin under a fresh name defined in front of it and called
+    wherever the original is called from top level; sometimes a few of its expression statements are repeated at top level too.
+    Every compound expression of the function then also occurs in an earlier scope."""
+    out = []
+    twins = {}
+    for st in model['statements']:
+        if 'function' in st and rng.random() < 0.8:
+            fn = st['function']
+            twin = fast_copy(fn)
+            twin['name'] = twins.setdefault(fn['name'], fn['name'] + 'Twin')
+            if rng.random() < 0.3:
+                out += [fast_copy(s) for s in fn['statements'] if 'expr' in s][:3]
+            if rng.random() < 0.7:
+                out.append({'function': twin})
+                out.append(st)
+            else:
+                out.append(st)
+                out.append({'function': twin})
+            continue
+        out.append(st)
+        if 'expr' in st:
+            for name, twin in twins.items():
+                if calls_name(st['expr']['expr'], name):
+                    out.append(rename_model({'statements': [st]}, {name: twin}, {}, {})['statements'][0])
+                    break
+    return {'statements': out}
+
+
+# ---------------------------------------------------------------------------------------------------------------------
+# histories: the same process lints many models, re-lints objects that were modified in place, survives failing calls;
+# the same models in a fresh interpreter (other string-hash seeds) give the same warnings
+# ---------------------------------------------------------------------------------------------------------------------
+
+BAD_INPUTS = [None, {}, {'statements': None}, {'statements': [{}]}, {'statements': [{'expr': {}}]}, {'statements': [{'function': {'name': 'f'}}]},
+              {'statements': [{'jump': {}}]}, {'statements': [{'bogus': 1}]}, {'statements': [{'function': {'name': 'f', 'statements': [{'expr': None}]}}]},
+              [], 'script', {'statements': [{'expr': {'expr': {'binary': {'op': '+'}}}}]}]
+
+
+def history_episode(rng, pool):
+    """{'models': [tree ...], 'ops': [[op, model index, argument] ...]}"""
+    models = [fast_copy(rng.choice(pool)) for _ in range(rng.randint(1, 3))]
+    ops = []
+    for _ in range(rng.randint(5, 12)):
+        i = rng.randrange(len(models))
+        k = rng.random()
+        if k < 0.35:
+            ops.append(['lint', i, None])
+        elif k < 0.45:
+            ops.append(['spoil', i, rng.choice(['clear', 'append', 'reverse'])])
+        elif k < 0.57:
+            ops.append(['fail', 0, rng.randrange(len(BAD_INPUTS))])
+        else:
+            edit = rng.choice(['del-first', 'del-last', 'append-label', 'append-jump', 'append-pointless', 'pop-arg', 'push-arg', 'rename-fn',
+                               'fn-append-label', 'fn-append-jump', 'fn-del-last', 'fn-assign', 'graft', 'swap'])
+            ops.append(['edit', i, [edit, rng.randrange(len(models)), rng.choice(JLABELS), rng.choice(JARGS)]])
+            ops.append(['lint', i, None])
+    ops.append(['lint', rng.randrange(len(models)), None])
+    return {'models': models, 'ops': ops}
+
+
+def history_edit(objs, i, arg):
+    """In-place modification of objs[i] that keeps it schema-valid (and may make it share statements with another model)."""
+    edit, j, label, name = arg
+    m = objs[i]
+    stmts = m['statements']
+    fns = [s['function'] for s in stmts if 'function' in s]
+    if edit == 'del-first' and stmts:
+        del stmts[0]
+    elif edit == 'del-last' and stmts:
+        stmts.pop()
+    elif edit == 'append-label':
+        stmts.append({'label': label})
+    elif edit == 'append-jump':
+        stmts.append({'jump': {'label': label, 'expr': {'variable': 'gc'}}})
+    elif edit == 'append-pointless':
+        stmts.insert(0, {'expr': {'expr': {'variable': name}}})
+    elif edit == 'pop-arg' and fns and len(fns[0].get('args', [])) > 1:
+        fns[0]['args'].pop()
+    elif edit == 'push-arg' and fns:
+        fns[-1].setdefault('args', []).append(name)
+    elif edit == 'rename-fn' and fns:
+        fns[0]['name'] = fns[-1]['name']
+    elif edit == 'fn-append-label' and fns:
+        fns[0]['statements'].append({'label': label})
+    elif edit == 'fn-append-jump' and fns:
+        fns[-1]['statements'].append({'jump': {'label': label}})
+    elif edit == 'fn-del-last' and fns and fns[0]['statements']:
+        fns[0]['statements'].pop()
+    elif edit == 'fn-assign' and fns:
+        fns[-1]['statements'].insert(0, {'expr': {'name': name, 'expr': {'number': 1.0}}})
+    elif edit == 'graft' and objs[j]['statements']:
+        stmts.append(objs[j]['statements'][0])        # the same statement OBJECT is now part of two models
+    elif edit == 'swap' and len(stmts) > 1:
+        stmts[0], stmts[-1] = stmts[-1], stmts[0]
+
+
+def run_history(ep, observed=None):
+    """Runs one episode on the implementation. -> [(step, expected, actual)] where a lint of an object differs from the lint of a
+    fresh copy of its current value.  observed: list collecting (value, warnings) of every lint step."""
+    lint = fw.impl()['model'].lint_script
+    objs = [fast_copy(m) for m in ep['models']]
+    bad = []
+    for step, (op, i, arg) in enumerate(ep['ops']):
+        if op == 'fail':
+            try:
+                lint(fast_copy(BAD_INPUTS[arg]))
+            except Exception:  # pylint: disable=broad-except
+                pass
+            continue
+        if op == 'edit':
+            history_edit(objs, i, arg)
+            continue
+        value = fast_copy(objs[i])
+        try:
+            got = lint(objs[i])
+            if op == 'spoil':               # the caller does what it likes with the list it was given
+                keep = list(got)
+                if arg == 'clear':
+                    got.clear()
+                elif arg == 'append':
+                    got.append('caller text')
+                else:
+                    got.reverse()
+                got = keep
+            want = lint(fast_copy(value))
+        except Exception as exc:  # pylint: disable=broad-except
+            bad.append((step, 'a list of warnings', f'{type(exc).__name__}: {exc}'))
+            continue
+        if objs[i] != value:
+            bad.append((step, 'model unchanged', jsonable(objs[i])))
+            objs[i] = value
+        if got != want:
+            bad.append((step, want, got))
+        if observed is not None:
+            observed.append((value, want))
+    return bad
+
+
+_FRESH_LINT_SRC = r"""
+import json, sys
+sys.path.insert(0, sys.argv[1])
+from bare_script import model
+out = []
+for tree in json.load(sys.stdin):
+    try:
+        out.append(model.lint_script(tree))
+    except Exception as exc:
+        out.append({'error': type(exc).__name__})
+json.dump(out, sys.stdout)
+"""
+
+
+def fresh_lint(trees, hashseed):
+    """The trees linted IN ORDER by a fresh interpreter process with the given string-hash seed."""
+    import subprocess
+    env = dict(os.environ, PYTHONHASHSEED=str(hashseed))
+    res = subprocess.run([sys.executable, '-c', _FRESH_LINT_SRC, fw.REPO_SRC], input=json.dumps(trees), capture_output=True, text=True,
+                         timeout=300, check=False, env=env)
+    if res.returncode != 0:
+        raise fw.Infra('fresh lint process failed: ' + res.stderr[-400:])
+    return json.loads(res.stdout)
+
+
+HASHSEEDS = [0, 4242]
+
+
+# ---------------------------------------------------------------------------------------------------------------------
 # streams
 # ---------------------------------------------------------------------------------------------------------------------
 
@@ -1380,16 +1942,16 @@ def without(model, path):
     return m
 
 
-def oracle_failures(model):
+def oracle_failures(model, reprs=()):
     found = []
 
     def report(oracle, input_, expected, actual, **extra):
         found.append(dict(extra, oracle=oracle, input=jsonable(input_), expected=jsonable(expected), actual=jsonable(actual)))
-    check_model(fast_copy(model), report, {}, semantic_cap=1000)
+    check_model(fast_copy(model), report, {}, semantic_cap=1000, reprs=reprs)
     return found
 
 
-def shrink_model(model, oracle, budget=600):
+def shrink_model(model, oracle, budget=600, reprs=()):
     """Delta debugging on statements: drop statements while the same oracle still fails on the implementation."""
     calls = 0
     changed = True
@@ -1400,7 +1962,7 @@ def shrink_model(model, oracle, budget=600):
                 break
             cand = without(model, path)
             calls += 1
-            if any(f['oracle'] == oracle for f in oracle_failures(cand)):
+            if any(f['oracle'] == oracle and f['input'].get('repr') == (reprs[0] if reprs else None) for f in oracle_failures(cand, reprs)):
                 model = cand
                 changed = True
     return model
@@ -1412,11 +1974,15 @@ def tags_of(parsed, model):
     return tags
 
 
-def run_cases(ctx, name, rule, cases, semantic_cap=8, liveness=False):
-    """cases: [(case id / text, model)]; liveness: non-trivial = some binding of the case is observably used"""
+def run_cases(ctx, name, rule, cases, semantic_cap=8, liveness=False, reprs='rotate', extra_tags=None, nontrivial_fn=None):
+    """cases: [(case id / text, model)]; liveness: non-trivial = some binding of the case is observably used;
+    reprs: host representations in which every case is linted as well ('rotate': one of REPRS per case, in turn)"""
     st = ctx.stream(name, rule)
     stats = {}
     models = []
+    every = ctx.scale(4, 2)
+    if os.environ.get('C18_TIMING'):
+        print(f'[timing] {name}: start at {ctx.elapsed():.1f}s, cases', file=sys.stderr)
     for cid, model in cases:
         try:
             fw.impl()['model'].validate_script(fast_copy(model))
@@ -1426,9 +1992,15 @@ def run_cases(ctx, name, rule, cases, semantic_cap=8, liveness=False):
         models.append((cid, model))
     resps = ctx.driver.batch([{'op': 'lint', 'script': canon_script(m)} for _, m in models])
 
-    for (cid, model), resp in zip(models, resps):
+    for n, ((cid, model), resp) in enumerate(zip(models, resps)):
+        if reprs == 'rotate':      # the big random streams: one representation per case, in turn (quick: for every fourth case, thorough: every second)
+            case_reprs = [REPRS[(n // every) % len(REPRS)]] if n % every == 0 else []
+        else:
+            case_reprs = list(reprs) + [REPRS[2 + n % (len(REPRS) - 2)]]
+
         def report(oracle, input_, expected, actual, cid=cid, **extra):
             w = dict(extra, oracle=oracle, input=jsonable(input_), expected=jsonable(expected), actual=jsonable(actual))
+            wr = [w['input']['repr']] if isinstance(w['input'], dict) and w['input'].get('repr') else []
             if F19(w):   # known finding: keep a few examples, do not let them crowd out other witnesses
                 stats['F19-witness'] = stats.get('F19-witness', 0) + 1
                 if stats['F19-witness'] > 25:
@@ -1438,20 +2010,20 @@ def run_cases(ctx, name, rule, cases, semantic_cap=8, liveness=False):
             if stats.get('shrunk', 0) < 3 and isinstance(w['input'], dict) and 'model' in w['input']:
                 # the first witnesses of a stream are minimised (so that the replay file holds a small input)
                 stats['shrunk'] = stats.get('shrunk', 0) + 1
-                small = shrink_model(w['input']['model'], oracle)
-                again = [f for f in oracle_failures(small) if f['oracle'] == oracle]
+                small = shrink_model(w['input']['model'], oracle, reprs=wr)
+                again = [f for f in oracle_failures(small, wr) if f['oracle'] == oracle and f['input'].get('repr') == (wr[0] if wr else None)]
                 if again:
                     f = again[0]
                     rest = {k: v for k, v in f.items() if k not in ('oracle', 'input', 'expected', 'actual')}
                     ctx.witness(oracle, f['input'], f['expected'], f['actual'], stream=name, case=cid, shrunk=True, **rest)
                     return
             ctx.witness(oracle, w['input'], w['expected'], w['actual'], stream=name, case=cid, **extra)
-        impl_out = check_model(model, report, stats, semantic_cap)
+        impl_out = check_model(model, report, stats, semantic_cap, reprs=case_reprs)
         model_out = resp.get('warnings', resp)
         ctx.compare(name, {'case': cid, 'model': model}, impl_out, model_out)
         parsed = parse_warnings(model, impl_out) if isinstance(impl_out, list) else []
-        tags = tags_of(parsed, model)
-        nontrivial = bool(parsed)
+        tags = tags_of(parsed, model) + (extra_tags(cid, model) if extra_tags else [])
+        nontrivial = nontrivial_fn(model) if nontrivial_fn else bool(parsed)
         if liveness:
             focus = cid.split(':') if isinstance(cid, str) and cid.startswith('flow:') else None
             live = binding_liveness(model, stats, only=focus[1] if focus else None)
@@ -1505,8 +2077,9 @@ def structured_cases(rng, n):
 
 def streams(ctx):
     run_cases(ctx, 'lint-corpus', 'hand-picked models (duplicate labels shared between scopes, last-statement jumps, names that '
-              'collide with generated labels, re-assigned arguments, non-ASCII names); non-trivial = at least one warning',
-              corpus_models())
+              'collide with generated labels, re-assigned arguments, non-ASCII names, rest marker without names, flags present and false, '
+              'self-assignments that bind, re-bound library names, twin functions); each also linted with shared nodes; non-trivial = at '
+              'least one warning', corpus_models(), reprs=['share-expr', 'share-all'])
 
     rng = ctx.rng('lint-structured')
     run_cases(ctx, 'lint-structured', 'random BareScript source (assignments, calls, if/elif/else, while, for, break/continue, '
@@ -1563,6 +2136,56 @@ def streams(ctx):
               'statement is deleted and the run compared (semantic oracle); non-trivial = the expression holds a call or a warning is '
               'reported', pointless_shape_cases(ctx.scale(2, 3), 3), semantic_cap=100000)
 
+    # ---- optional members, removable-looking statements, shared nodes, histories ----
+    covered = schema_optional_members()
+    st = run_cases(ctx, 'lint-optional-members', 'every presence combination of the optional members of each struct of the schema (read from '
+                   'BARE_SCRIPT_TYPES: ' + ', '.join(covered) + '): function definitions args {absent, 1, 2, 3 names, a duplicate} x '
+                   'lastArgArray {absent, false, true} x async {absent, false, true} x body reads {no statements, nothing, first, last, all '
+                   'names}, called with 0 / 1 / 4 actuals; the headers the parser accepts with names, blanks and the rest marker independently '
+                   'present (`function f(...):` = flag without names); expression / assignment / return / jump statements over every kind of '
+                   'expression incl. calls without and with an empty args member, return / jump without expression, jumps to a defined / '
+                   'undefined label, includes with system {absent, false, true}; each at top level, inside and at the end of a function; the '
+                   'Lean model decodes all of these and is compared; non-trivial = at least one warning', optional_member_cases(),
+                   semantic_cap=1000, reprs=ctx.scale(['share-all'], REPRS),
+                   extra_tags=lambda cid, m: ['opt:' + ':'.join(cid.split(':')[1:2])])
+    for missing in sorted(set(covered) - set(OPT_COVERED)):
+        st.hist['schema-optional-member-not-in-generator:' + missing] = 1
+    st.exhaustive = False
+
+    parser = fw.impl()['parser']
+    run_cases(ctx, 'lint-noop-lookalikes', 'statements that look removable and names that look unused but are not: self-assignment in 9 '
+              'spellings (v = v, v = (v), v = v + 0, v = if(true, v, v), ...) x the name {a global of the run, bound nowhere} x its binding state '
+              '(function: only a global / already a local / an argument / bound on one path; top level: never assigned / assigned before / '
+              'later), followed by a callee that updates the global and reads of both; calls of side-effect-free library functions (plain, in '
+              'a binary / group / unary, assigned to an unused variable) whose name is the library function / re-defined by the script / a '
+              'global / local / argument holding a logging function; dead stores, jumps to the next statement, trailing returns, bare '
+              'variable statements, shadowed globals; every warning goes through the rename / delete-and-run oracle (a reported statement of '
+              'ANY form is deleted); non-trivial = at least one warning',
+              [(cid, parser.parse_script(text)) for cid, text in noop_lookalike_cases()], semantic_cap=1000, reprs=ctx.scale(['share-expr'], REPRS))
+
+    rng = ctx.rng('lint-shared-nodes')
+    base = []
+    sample = flow_matrix(rng, full=False)
+    for cid, text in rng.sample(sample, min(len(sample), ctx.scale(150, 1500))):
+        base.append((cid, parser.parse_script(text)))
+    base += [(f'flow{i}', m) for i, (_, m) in enumerate(flow_random_cases(rng, ctx.scale(120, 1500)))]
+    base += [(f'jump{i}', JumpGen(rng).model()) for i in range(ctx.scale(150, 1500))]
+    base += [(f'src{i}', m) for i, (_, m) in enumerate(structured_cases(rng, ctx.scale(80, 1000)))]
+    shared = [('twin:' + cid, with_twins(m, rng)) for cid, m in base]
+    run_cases(ctx, 'lint-shared-nodes', 'HOST-ONLY representation (the Lean model has values, not object identity: it is compared on the '
+              'value): programs of the read-site matrix, the data-flow, jump-level and source generators in which (most) functions have an '
+              'equal twin under another name in front of / behind them and a few of their statements repeated at top level, linted as an '
+              'object graph in which structurally equal compound expression nodes are ONE object (share-expr) and in which every equal dict '
+              'and list - leaves, statements, statement lists, argument lists - is one object (share-all), plus one of {dict / list / str / '
+              'float subclasses, read-only containers that raise on modification, reversed / sorted member order, OrderedDict} in turn '
+              '(every other stream lints each case in ONE of the seven representations, in turn); oracles: no exception, model '
+              'unchanged, same warnings as the plain tree (lint-representation), and every warning that only the representation gets is '
+              'renamed / deleted and run (the warnings of the plain tree: one per kind, they are the business of the other streams); non-trivial = at least one compound expression occurs in two scopes (tag shared-exprs)', shared,
+              semantic_cap=1, reprs=['share-expr', 'share-all'], nontrivial_fn=lambda m: cross_scope_shared(m) > 0,
+              extra_tags=lambda cid, m: ['shared-exprs%d' % min(5, cross_scope_shared(m)), 'base:' + cid.split(':')[1].rstrip('0123456789')])
+
+    history_stream(ctx)
+
     shipped = []
     inc_dir = os.path.join(os.path.dirname(fw.impl()['model'].__file__), 'include')
     for path in sorted(glob.glob(os.path.join(inc_dir, '*.bare'))):
@@ -1587,8 +2210,121 @@ def streams(ctx):
     run_cases(ctx, 'lint-nested', 'jump-level models in which function bodies may contain function statements (finding F19: lint does '
               'not look inside them); the model mirrors the non-descending behaviour; non-trivial = at least one warning', nested,
               semantic_cap=3)
-    for name in ('lint-corpus', 'lint-structured', 'lint-jump', 'lint-nested', 'lint-pointless-shapes', 'lint-flow-sites', 'lint-flow-random', 'lint-names', 'lint-names-random'):
+    for name in ('lint-shared-nodes', 'lint-noop-lookalikes', 'lint-corpus', 'lint-structured', 'lint-jump', 'lint-nested', 'lint-pointless-shapes', 'lint-flow-sites', 'lint-flow-random', 'lint-names', 'lint-names-random'):
         ctx.streams[name].exhaustive = False
+
+
+def history_stream(ctx):
+    rng = ctx.rng('lint-history')
+    st = ctx.stream('lint-history', 'HOST-ONLY histories (the Lean model is a function of the value and is compared on every value linted): '
+                    'episodes of 5-12 steps over 1-3 model objects drawn from the jump-level, source, data-flow and optional-member '
+                    'generators: lint an object again, lint after the object was modified IN PLACE (statements deleted / appended / swapped, '
+                    'argument lists grown / shrunk, a function renamed to the name of another, a statement object grafted from another '
+                    'model), lint after calls that failed on malformed input, lint after the caller cleared / extended / reversed the list '
+                    'it was given; oracle lint-history: the warnings equal those of a fresh copy of the current value, the object is not '
+                    'modified; oracle lint-fresh-process: every value linted is linted again, in order, by fresh interpreter processes '
+                    'with string-hash seeds ' + ', '.join(map(str, HASHSEEDS)) + ' and gives the same list; non-trivial = the episode '
+                    'modifies a model in place')
+    if os.environ.get('C18_TIMING'):
+        print(f'[timing] lint-history: start at {ctx.elapsed():.1f}s', file=sys.stderr)
+    pool = [JumpGen(rng).model() for _ in range(ctx.scale(60, 600))]
+    pool += [m for _, m in structured_cases(rng, ctx.scale(30, 300))] + [m for _, m in flow_random_cases(rng, ctx.scale(20, 200))]
+    opt = optional_member_cases()
+    pool += [m for _, m in rng.sample(opt, 30)]
+    valid = []
+    for m in pool:
+        try:
+            fw.impl()['model'].validate_script(fast_copy(m))
+            valid.append(m)
+        except Exception:  # pylint: disable=broad-except
+            pass
+    observed = []
+    for n in range(ctx.scale(300, 4000)):
+        ep = history_episode(rng, valid)
+        bad = run_history(ep, observed)
+        for step, want, got in bad[:1]:
+            small = shrink_history(ep)
+            sbad = run_history(small)
+            if sbad:
+                ep, (step, want, got) = small, sbad[0]
+            ctx.witness('lint-history', {'history': ep, 'step': step}, jsonable(want), jsonable(got), stream='lint-history', case=f'episode{n}')
+        edits = sum(1 for op in ep['ops'] if op[0] == 'edit')
+        st.case(ep, nontrivial=edits > 0, tags=['edits%d' % min(edits, 4), 'fails%d' % min(2, sum(1 for op in ep['ops'] if op[0] == 'fail')),
+                                                'spoils%d' % min(2, sum(1 for op in ep['ops'] if op[0] == 'spoil'))])
+    # distinct values, in first-seen order
+    seen = {}
+    for value, warnings in observed:
+        seen.setdefault(json.dumps(value, sort_keys=True), (value, warnings))
+    values = [v for v, _ in seen.values()]
+    local = [w for _, w in seen.values()]
+    schema_ok = []
+    for v in values:
+        try:
+            fw.impl()['model'].validate_script(fast_copy(v))
+            schema_ok.append(True)
+        except Exception:  # pylint: disable=broad-except
+            schema_ok.append(False)
+    resps = ctx.driver.batch([{'op': 'lint', 'script': canon_script(v)} for v in values])
+    for v, w, r, ok in zip(values, local, resps, schema_ok):
+        if ok:
+            ctx.compare('lint-history', {'model': v}, w, r.get('warnings', r))
+    st.hist['stat:values-linted'] = len(values)
+    st.hist['stat:values-schema-invalid'] = schema_ok.count(False)
+    for hs in HASHSEEDS:
+        reported = 0
+        for v, w, f, ok in zip(values, local, fresh_lint(values, hs), schema_ok):
+            if ok and f != w and reported < 5:
+                reported += 1
+                small = shrink_fresh(v, hs)
+                ctx.witness('lint-fresh-process', {'model': small, 'hashseed': hs}, lint_here(small), fresh_lint([small], hs)[0],
+                            stream='lint-history')
+    st.exhaustive = False
+
+
+def shrink_history(ep):
+    # Drop steps / models while some lint step still differs from the lint of a fresh copy
+    ep = fast_copy(ep)
+    changed = True
+    while changed:
+        changed = False
+        for k in reversed(range(len(ep['ops']))):
+            cand = dict(ep, ops=ep['ops'][:k] + ep['ops'][k + 1:])
+            if run_history(cand):
+                ep = cand
+                changed = True
+    for i in range(len(ep['models'])):      # models no remaining step needs become empty scripts
+        cand = dict(ep, models=[m if j != i else {'statements': []} for j, m in enumerate(ep['models'])])
+        if run_history(cand):
+            ep = cand
+    return ep
+
+
+def lint_here(model):
+    try:
+        return fw.impl()['model'].lint_script(fast_copy(model))
+    except Exception as exc:  # pylint: disable=broad-except
+        return {'error': type(exc).__name__}
+
+
+def fresh_differs(model, hashseed):
+    return fresh_lint([model], hashseed)[0] != lint_here(model)
+
+
+def shrink_fresh(model, hashseed, budget=40):
+    # (each probe starts an interpreter: small budget)
+    calls = 0
+    changed = True
+    while changed and calls < budget:
+        changed = False
+        for path in reversed(statement_paths(model)):
+            if calls >= budget:
+                break
+            cand = without(model, path)
+            calls += 1
+            if fresh_differs(cand, hashseed):
+                model = cand
+                changed = True
+    return model
 
 
 # ---------------------------------------------------------------------------------------------------------------------
@@ -1605,6 +2341,11 @@ def search(ctx):
             ctx.witness(oracle, jsonable(input_), jsonable(expected), jsonable(actual), stream='search', **extra)
     for _, model in corpus_models():
         check_model(model, report, stats)
+    parser = fw.impl()['parser']
+    for _, model in optional_member_cases() + [(c, parser.parse_script(t)) for c, t in noop_lookalike_cases()]:
+        if len(ctx.witnesses) >= 5:
+            return
+        check_model(model, report, stats, semantic_cap=1000, reprs=REPRS)
     for _, text in flow_matrix(rng, full=True):     # the whole read-site matrix
         if len(ctx.witnesses) >= 5:
             return
@@ -1627,10 +2368,16 @@ def replay(witness):
 
     def report(oracle, input_, expected, actual, **extra):
         found.append(oracle)
-    model = copy.deepcopy(witness['input']['model']) if 'model' in witness['input'] else None
+    inp = witness['input']
+    if witness['oracle'] == 'lint-history' or 'history' in inp:
+        return bool(run_history(inp['history']))
+    if witness['oracle'] == 'lint-fresh-process':
+        return fresh_differs(inp['model'], inp.get('hashseed', 0))
+    model = copy.deepcopy(inp['model']) if 'model' in inp else None
     if model is None:
         return False
-    check_model(model, report, {}, semantic_cap=1000)
+    # a witness found in another host representation of the model is rebuilt in it (realise is deterministic)
+    check_model(model, report, {}, semantic_cap=1000, reprs=[inp['repr']] if inp.get('repr') else ())
     return witness['oracle'] in found
 
 
